@@ -14,6 +14,10 @@ from chx.shim import REPLAYING
 SINKS = ("eval", "exec", "compile", "__import__", "import_module", "system", "popen", "Popen", "run", "call", "check_output", "socket")
 
 
+#: modules the repo's own code imports lazily by literal name (grep import_module in cdd/): importing these is not "executing analysed code"
+LIBRARY_IMPORTS = frozenset(("ast", "astor", "yaml", "black", "typing", "typing_extensions", "pydantic", "sqlalchemy", "json", "os"))
+
+
 class Monitor:
     def __init__(self, coins=()):
         self.coins = list(coins)
@@ -31,6 +35,11 @@ class Monitor:
 
     def _sink(self, name):
         def stub(*a, **kw):
+            if name in ("import_module", "__import__") and a and isinstance(a[0], str) and type(a[0]) is str and (a[0] in LIBRARY_IMPORTS or a[0].startswith("cdd.")):
+                # a library named by a literal of the repo's own code (never derived from the analysed input): perform it, not a sink
+                import importlib
+
+                return (importlib.import_module if name == "import_module" else builtins.__import__)(*a, **kw)
             self.others.append((name, a[:1]))
             if REPLAYING() and name in ("compile", "__import__", "import_module"):
                 import importlib
